@@ -100,10 +100,14 @@ impl<const D: usize> SvdBasis<D> {
     pub fn from_points(points: &[Point<f64, D>], weights: Option<&[f64]>) -> Self {
         if let Some(w) = weights {
             let center = mean_point_weighted(points, w);
+            // The weights are relative: dividing by their mean makes the singular values (and
+            // the rank) independent of the unit the weights are given in, and uniform weights
+            // equivalent to no weights.
+            let mean_w = w.iter().sum::<f64>() / w.len() as f64;
             let vectors = points
                 .iter()
                 .zip(w)
-                .map(|(p, w)| (p - center) * *w)
+                .map(|(p, w)| (p - center) * (*w / mean_w))
                 .collect::<Vec<_>>();
             svd_from_vectors(&vectors, Some(center))
         } else {
